@@ -213,7 +213,7 @@ func progSize(p []*N) int {
 // shrink: delta debugging on the AST.  Each round evaluates the smallest one-step reductions of
 // the program on the real Evaler and lets TLC judge them; the first one that is still rejected
 // (and compiles) replaces the program.  Verdicts come from TLC only.
-func shrink(c *lib.Ctx, prog []*N, rounds int) []*N {
+func shrink(c *lib.Ctx, prog []*N, mods []elvcore.Module, rounds int) []*N {
 	for r := 0; r < rounds; r++ {
 		var cands [][]*N
 		for i := range prog {
@@ -233,7 +233,7 @@ func shrink(c *lib.Ctx, prog []*N, rounds int) []*N {
 		var traces [][]Event
 		var which []int
 		for i, p := range cands {
-			evs, err := elvcore.RunProgram(p) // static errors, hangs ...: not a candidate
+			evs, err := elvcore.RunProgram(p, mods...) // static errors, hangs ...: not a candidate
 			if err == nil {
 				traces = append(traces, evs)
 				which = append(which, i)
